@@ -32,11 +32,18 @@ class Method:
 
 def split_top(s, sep=','):
     out, depth, cur, q = [], 0, '', None
-    for ch in s:
+    i = 0
+    while i < len(s):
+        ch = s[i]
         if q:
             cur += ch
+            if ch == '\\' and i + 1 < len(s):
+                cur += s[i + 1]
+                i += 2
+                continue
             if ch == q:
                 q = None
+            i += 1
             continue
         if ch in '"\'':
             q = ch
@@ -52,6 +59,7 @@ def split_top(s, sep=','):
             cur = ''
         else:
             cur += ch
+        i += 1
     if cur.strip():
         out.append(cur.strip())
     return out
@@ -75,6 +83,9 @@ def _balanced(src, i):
     while j < len(src):
         ch = src[j]
         if q:
+            if ch == '\\':
+                j += 2
+                continue
             if ch == q:
                 q = None
         elif ch in '"\'':
@@ -110,9 +121,15 @@ def parse_field(line):
     depth = 0
     eq = None
     q = None
+    skip = False
     for i, ch in enumerate(rest):
+        if skip:
+            skip = False
+            continue
         if q:
-            if ch == q:
+            if ch == '\\':
+                skip = True
+            elif ch == q:
                 q = None
             continue
         if ch in '"\'':
